@@ -205,10 +205,28 @@ fn c07_for(cx: &Ctx, si: usize) -> Vec<Finding> {
     let disposed = sub.disposed_at.as_ref().map(|d| d.0);
     let n_take = if let Topo::Take(n, _) = t { Some(*n as usize) } else { None };
     let took_all = n_take.map_or(false, |n| u.len() >= n);
-    if let (Some(n), true) = (n_take, took_all) {
+    // upstream ended by itself from inside the nth item's delivery (pushed re-entrantly while the sink was
+    // handling that item), before take's own completion point: then that end is simply relayed
+    let ended_inside_nth = match (n_take, took_all, &inst.ended_at) {
+        (Some(n), true, Some((e, _))) => within(cx, *e, u_span[n - 1]),
+        _ => false,
+    };
+    if let (Some(n), true, false) = (n_take, took_all, ended_inside_nth) {
         let nth = u_span[n - 1];
         let nth_sink = got.get(n - 1).map(|g| cx.ix.spans[g.1].start);
         let disposed_first = disposed.map_or(false, |d| d < cx.ix.spans[nth].end);
+        if disposed_first && !truncated {
+            // the sink left before take's own completion: take must neither complete it nor dispose
+            // upstream a second time (the relayed disposal is the only termination upstream sees)
+            if sub.terminal_at.is_some() || inst.terms.len() > 1 {
+                out.push(finding(
+                    "C07",
+                    "C07:take-completion-after-disposal",
+                    format!("take({n}): the sink disposed before the {n}th delivery returned, yet the sink saw {:?} and upstream received {:?}", sub.terminal_at, inst.terms),
+                    cx.ix.spans[nth].end,
+                ));
+            }
+        }
         if !disposed_first && !(truncated && cx.ix.spans[nth].end >= cx.h.log.len()) {
             match (&sub.terminal_at, nth_sink) {
                 (Some((tpos, M::Terminate)), Some(ns)) if within(cx, *tpos, nth) && *tpos > ns => {}
@@ -313,6 +331,21 @@ fn pull_broadcast(cx: &Ctx, prop: &'static str, op: &str, ms: &Members, sub: &Su
                 format!("{prop}:spontaneous-pull({op})"),
                 format!("{} was not caused by any Pull of the sink", cx.ix.spans[*p].site.short()),
                 cx.ix.spans[*p].start,
+            ));
+        }
+    }
+    // a Pull is never forwarded to a member that has already completed or been terminated
+    for (p, _) in &charged {
+        let Site::PupRecv { pup, inst, .. } = &cx.ix.spans[*p].site else { continue };
+        let Some(i) = ms.insts.iter().flatten().find(|i| i.pup == *pup && i.inst == *inst) else { continue };
+        let at = cx.ix.spans[*p].start;
+        let dead = i.ended_at.as_ref().map_or(false, |e| e.0 < at) || i.terms.first().map_or(false, |t| t.0 < at);
+        if dead {
+            out.push(finding(
+                prop,
+                format!("{prop}:pull-to-finished-member({op})"),
+                format!("member p{pup}.{inst} received a Pull at #{at} after it had completed or been terminated"),
+                at,
             ));
         }
     }
